@@ -67,7 +67,7 @@ struct Obj {
 	bool lvl_unknown = false; int oldprio = 0;
 	bool salt = false;                   // signal handler: which of the two callback entry points is the registered one            // the descriptor joins its level's queue at the next poll: everything queued until then is ahead of it
 	// signal handler
-	qb_loop_signal_handle sh = NULL; bool sreg = false; int sprio = 0; int signo = 0; int must = 0, may = 0; int64_t s_since = -1; int64_t sdl = -1; bool lvl_unknown_s = false; int oldsprio = 0;
+	qb_loop_signal_handle sh = NULL; bool sreg = false; int sprio = 0; int signo = 0; int must = 0, may = 0; int64_t s_since = -1; int64_t sdl = -1; bool sdl_at_poll = false; bool lvl_unknown_s = false; int oldsprio = 0;
 };
 
 struct St {
@@ -776,8 +776,9 @@ static void on_epoll_wait(int timeout)
 		any_rep = true;
 		if (!retry && o.first_iter_expired < 0 && o.expiry < now) { o.first_iter_expired = L.iter; o.tdl = deadline(o.tprio); }
 	}
-	for (size_t i = 0; i < L.objs.size() && !retry; i++) {
+	for (size_t i = 0; i < L.objs.size(); i++) {
 		Obj &o = L.objs[i];
+		if (o.type == O_SIG && o.sreg && o.must > 0 && o.sdl >= 0 && o.sdl_at_poll) { o.sdl_at_poll = false; int64_t d = deadline(o.sprio) + (int64_t)L.sig_inflight.size() + 3; if (d > o.sdl) o.sdl = d; }
 		if (o.type == O_FD && o.reg && o.ready_since >= 0 && o.fdl_at_poll) { o.fdl_at_poll = false; int64_t d = deadline(o.fprio) + 1; if (d > o.fdl) o.fdl = d; }
 	}
 	if (!retry && timeout == 50 && L.jobs_pending_total > 0) count(p_throttle50);
@@ -846,7 +847,16 @@ static int on_blocked_forever()
 }
 static void on_fault(int kind)
 {
-	if (kind == F_EINTR_WAIT) L.eintr_just_fired = true;
+	if (kind == F_EINTR_WAIT) {
+		L.eintr_just_fired = true;
+		// the interrupted wait reported no descriptor (and read no signal): whatever was ready queues at the next one,
+		// behind the jobs and timers the loop queues in between - its place in the line is decided then
+		for (size_t i = 0; i < L.objs.size(); i++) {
+			Obj &o = L.objs[i];
+			if (o.type == O_FD && o.reg && o.ready_since >= 0) o.fdl_at_poll = true;
+			if (o.type == O_SIG && o.sreg && o.must > 0 && o.sdl >= 0) o.sdl_at_poll = true;
+		}
+	}
 	if (kind == F_EPOLL_SHUFFLE) {
 		// a shortened batch legally postpones the report of some ready descriptors by one call
 		for (size_t i = 0; i < L.objs.size(); i++) {
